@@ -291,6 +291,9 @@ func (b *Block) readFrom(r io.Reader) error {
 	if b.method == rawMethod && b.compressedSize != b.rawSize {
 		return fmt.Errorf("cram: compressed (%d) != raw (%d) size for raw method", b.compressedSize, b.rawSize)
 	}
+	if b.compressedSize < 0 {
+		return fmt.Errorf("cram: invalid block size: %d", b.compressedSize)
+	}
 	// The spec says T[] is {itf8, element...}.
 	// This is not true for byte[] according to
 	// the EOF block.
@@ -461,6 +464,10 @@ func (r *errorReader) itf8slice() []int32 {
 		return nil
 	}
 	if n == 0 {
+		return nil
+	}
+	if n < 0 {
+		r.err = fmt.Errorf("cram: invalid array length: %d", n)
 		return nil
 	}
 	s := make([]int32, n)
